@@ -79,7 +79,10 @@ class CompactDiskAudioImage(Image):
 
     @property
     def children(self):
-        return self.tracks
+        tracks = self.tracks
+        for routine in getattr(self, "_routines", {}).values():
+            tracks = routine(tracks)
+        return tracks
 
     def combine_stereo_routine(self, samples: List[Sample]) -> List[Sample]:
         result = samples
